@@ -555,6 +555,9 @@ func (s *scanner) offsetsCase(b []byte, class string) {
 			// or the Extract*Cbor accessors refuse it (never a panic)
 			s.extractAll(b, offs)
 		}
+		if s.c.Res.Distribution == nil {
+			s.c.Res.Distribution = map[string]int{}
+		}
 		s.c.Res.Distribution["offsets:"+class]++
 		s.add(name, b, class, got, fmt.Sprintf("(COffsets %s %s %s)", vh.Bool(streaming), vh.Bytes(b), res))
 	}
@@ -614,6 +617,14 @@ func (s *scanner) offsets(n int, cp *corpus) {
 		}
 		s.offsetsCase(b, class)
 	}
+	walkFile := s.cf
+	s.cf = s.c.NewCaseFile("layout", scanHeader)
+	s.cf.SetShardSize(110)
+	for _, b := range layoutCorpus() {
+		emit(b, "layout-corpus")
+	}
+	s.cf.Flush()
+	s.cf = walkFile
 	// every base as it is (capped), then mutated and re-encoded
 	for i, b := range bases {
 		if i < nReal && i%3 != int(s.c.Seed)%3 && !s.c.Thorough() {
@@ -800,7 +811,27 @@ func byronItem(r *vh.Rng) *vh.Item {
 			ins.F = vh.Findef
 		}
 		body := vh.A(ins, vh.A(outs...), vh.M())
+		switch r.Intn(12) { // body arity / outputs kind at the edges of the guards
+		case 0:
+			body = vh.A(ins)
+		case 1:
+			body = vh.A()
+		case 2:
+			body = vh.A(ins, vh.Null(), vh.M())
+		case 3:
+			body = vh.A(ins, wrapTags(r, vh.A(outs...)))
+		}
 		pairs[i] = vh.A(body, vh.A(vh.A(vh.U(0), vh.TagOf(24, vh.B(r.Bytes(4))))))
+		if i > 0 {
+			switch r.Intn(12) { // pair arity (the first pair decides isByronBlock)
+			case 0:
+				pairs[i] = vh.A(body)
+			case 1:
+				pairs[i] = vh.A(body, vh.A(), vh.U(1))
+			case 2:
+				pairs[i] = vh.U(7)
+			}
+		}
 	}
 	return vh.A(stubHeader(r), vh.A(vh.A(pairs...), leaf(), vh.A(), vh.A()), vh.A(vh.M()))
 }
@@ -821,6 +852,18 @@ func dijkstraItem(r *vh.Rng) *vh.Item {
 			aux = vh.PickOne(r, []*vh.Item{vh.M(vh.U(1), vh.T("m")), vh.U(0), vh.A(), simple(23), vh.TagOf(259, vh.M())})
 		}
 		txs[i] = vh.A(body, wit, aux)
+		if i > 0 {
+			switch r.Intn(14) { // transaction arity / kind (the first one decides isDijkstraBlock)
+			case 0:
+				txs[i] = vh.A(body, wit)
+			case 1:
+				txs[i] = vh.A(body, wit, aux, vh.U(0))
+			case 2:
+				txs[i] = wrapTags(r, vh.A(body, wit, aux))
+			case 3:
+				txs[i] = vh.Null()
+			}
+		}
 	}
 	inv := vh.Null()
 	if r.Bool() {
@@ -885,4 +928,116 @@ func mutateAny(r *vh.Rng, it *vh.Item) string {
 		}
 	}
 	return "as-is"
+}
+
+// layoutCorpus: a fixed, seed-independent set of tiny blocks at the edges of the
+// arity / kind guards of the three layouts (run in every tier)
+func layoutCorpus() []*vh.Item {
+	h := vh.A(vh.U(1))
+	wit := vh.A(vh.A(vh.U(0), vh.B([]byte{9})))
+	in := vh.A(vh.A(vh.U(0), vh.B([]byte{1})))
+	out := vh.A(vh.B([]byte{2}), vh.U(3))
+	var blocks []*vh.Item
+	byron := func(pairs ...*vh.Item) *vh.Item {
+		return vh.A(h.Clone(), vh.A(vh.A(pairs...), vh.A(), vh.A(), vh.A()), vh.A())
+	}
+	good := func() *vh.Item { return vh.A(vh.A(in.Clone(), vh.A(out.Clone()), vh.M()), wit.Clone()) }
+	// Byron: transaction body arity 0..4, outputs of other kinds, pair arity 1..3 (after a first good pair)
+	for _, body := range []*vh.Item{vh.A(), vh.A(in.Clone()), vh.A(in.Clone(), vh.A(out.Clone())), vh.A(in.Clone(), vh.A(out.Clone(), out.Clone()), vh.M(), vh.U(0)),
+		vh.A(in.Clone(), vh.A(), vh.M()), vh.A(in.Clone(), vh.Null(), vh.M()), vh.A(in.Clone(), vh.U(1), vh.M()), vh.A(in.Clone(), vh.TagOf(258, vh.A(out.Clone())), vh.M()),
+		vh.U(5), vh.M(), vh.Null(), vh.B([]byte{0x82, 0x80, 0x80})} {
+		blocks = append(blocks, byron(vh.A(body, wit.Clone())), byron(good(), vh.A(body.Clone(), wit.Clone())))
+	}
+	for _, second := range []*vh.Item{vh.A(vh.A(in.Clone(), vh.A(out.Clone()), vh.M())), vh.A(vh.A(in.Clone(), vh.A(out.Clone()), vh.M()), wit.Clone(), vh.U(1)), vh.A(), vh.U(1), vh.Null(), vh.TagOf(6, good())} {
+		blocks = append(blocks, byron(good(), second), byron(second.Clone()))
+	}
+	// Byron: body parts arity 3..5 / kinds
+	blocks = append(blocks,
+		vh.A(h.Clone(), vh.A(vh.A(good()), vh.A(), vh.A()), vh.A()),
+		vh.A(h.Clone(), vh.A(vh.A(good()), vh.A(), vh.A(), vh.A(), vh.A()), vh.A()),
+		vh.A(h.Clone(), vh.A(vh.Null(), vh.A(), vh.A(), vh.A()), vh.A()),
+		vh.A(h.Clone(), vh.TagOf(6, vh.A(vh.A(good()), vh.A(), vh.A(), vh.A())), vh.A()),
+		vh.A(h.Clone(), vh.A(vh.U(1), vh.A(), vh.A(), vh.A()), vh.A()))
+	// Dijkstra: transaction arity 2..4, auxiliary data of one byte, tags, body parts arity
+	body := vh.M(vh.U(0), vh.A(), vh.U(1), vh.A(out.Clone()))
+	ws := vh.M(vh.U(4), vh.A(vh.U(7)))
+	dj := func(txs ...*vh.Item) *vh.Item { return vh.A(h.Clone(), vh.A(vh.Null(), vh.A(txs...), vh.Null(), vh.Null())) }
+	tx := func(aux *vh.Item) *vh.Item { return vh.A(body.Clone(), ws.Clone(), aux) }
+	for _, aux := range []*vh.Item{vh.Null(), simple(23), vh.U(0), vh.M(), vh.M(vh.U(0), vh.U(1)), vh.BoolItem(false), vh.TagOf(259, vh.M())} {
+		blocks = append(blocks, dj(tx(aux)), dj(tx(vh.Null()), tx(aux.Clone())))
+	}
+	for _, second := range []*vh.Item{vh.A(body.Clone(), ws.Clone()), vh.A(body.Clone(), ws.Clone(), vh.Null(), vh.U(1)), vh.A(), vh.Null(), vh.TagOf(6, tx(vh.Null())), vh.U(3)} {
+		blocks = append(blocks, dj(tx(vh.Null()), second), dj(second.Clone()))
+	}
+	blocks = append(blocks,
+		vh.A(h.Clone(), vh.A(vh.Null(), vh.A(tx(vh.Null())), vh.Null())),
+		vh.A(h.Clone(), vh.A(vh.Null(), vh.A(tx(vh.Null())), vh.Null(), vh.Null(), vh.Null())),
+		vh.A(h.Clone(), vh.A(vh.Null(), vh.TagOf(258, vh.A(tx(vh.Null()))), vh.Null(), vh.Null())),
+		vh.A(h.Clone(), vh.TagOf(6, vh.A(vh.Null(), vh.A(tx(vh.Null())), vh.Null(), vh.Null()))),
+		vh.A(h.Clone(), vh.A(vh.A(vh.U(0)), vh.A(), vh.Null(), vh.Null())),
+		vh.TagOf(6, dj(tx(vh.Null()))))
+	// Shelley+: top-level arity 0..6
+	sh := []*vh.Item{h.Clone(), vh.A(body.Clone()), vh.A(ws.Clone()), vh.M(vh.U(0), vh.U(9)), vh.A(), vh.U(0)}
+	for n := 0; n <= len(sh); n++ {
+		xs := make([]*vh.Item, n)
+		for i := range xs {
+			xs[i] = sh[i].Clone()
+		}
+		blocks = append(blocks, vh.A(xs...))
+	}
+	// Shelley+: one transaction, the witness set / body / metadata at the edges of the walkers' guards
+	d, ex := vh.B([]byte{7}), vh.A(vh.U(1), vh.U(2))
+	shelley := func(b, w, aux *vh.Item) *vh.Item { return vh.A(h.Clone(), vh.A(b), vh.A(w), aux) }
+	var wss []*vh.Item
+	for _, key := range []*vh.Item{vh.A(), vh.A(vh.U(1)), vh.A(vh.U(1), vh.U(2)), vh.A(vh.U(1), vh.U(2), vh.U(3)), vh.A(vh.U(256), vh.U(1 << 32)),
+		vh.A(vh.Null(), simple(9)), vh.A(vh.NI(0), vh.U(1)), vh.Null(), vh.U(5), vh.TagOf(6, vh.A(vh.U(3), vh.U(4)))} {
+		wss = append(wss, vh.M(vh.U(5), vh.M(key, vh.A(d.Clone(), ex.Clone()))))
+	}
+	for _, val := range []*vh.Item{vh.A(), vh.A(d.Clone()), vh.U(7), vh.M(), vh.Null(), vh.TagOf(6, vh.A(d.Clone(), ex.Clone()))} {
+		wss = append(wss, vh.M(vh.U(5), vh.M(vh.A(vh.U(0), vh.U(0)), val, vh.A(vh.U(1), vh.U(1)), vh.A(d.Clone(), ex.Clone()))))
+	}
+	for _, el := range []*vh.Item{vh.A(), vh.A(vh.U(1)), vh.A(vh.U(1), vh.U(2)), vh.A(vh.U(1), vh.U(2), d.Clone()), vh.A(vh.U(1), vh.U(2), d.Clone(), ex.Clone()),
+		vh.U(5), vh.M(), vh.Null(), vh.A(vh.T("p"), vh.U(2), d.Clone(), ex.Clone()), vh.A(vh.U(1), vh.NI(2), d.Clone(), ex.Clone()), vh.TagOf(6, vh.A(vh.U(1), vh.U(2), d.Clone(), ex.Clone()))} {
+		wss = append(wss, vh.M(vh.U(5), vh.A(el, vh.A(vh.U(3), vh.U(0), d.Clone(), ex.Clone()))))
+	}
+	for _, val := range []*vh.Item{vh.A(), vh.A(d.Clone(), d.Clone(), vh.U(1)), vh.TagOf(258, vh.A(d.Clone())), vh.TagOf(258, vh.TagOf(258, vh.A(d.Clone(), vh.U(2)))),
+		vh.Null(), vh.U(7), vh.M(), vh.TagOf(258, vh.U(7)), vh.TagOf(258, vh.Null()), vh.B([]byte{0x81, 0x00}),
+		vh.TagOf(24, vh.A(d.Clone())), vh.TagOf(6, vh.A(d.Clone())), vh.TagOf(65536, vh.A(d.Clone())), vh.TagOf(1<<33, vh.TagOf(24, vh.A(d.Clone(), d.Clone())))} {
+		wss = append(wss, vh.M(vh.U(4), val))
+		for _, k := range []uint64{1, 3, 6, 7, 8} {
+			if k == 1 || len(wss)%3 == 0 {
+				wss = append(wss, vh.M(vh.U(k), val.Clone()))
+			}
+		}
+	}
+	for _, key := range []*vh.Item{vh.Null(), simple(4), vh.TagOf(6, vh.U(4)), vh.NI(4), vh.T("4"), {K: vh.KUInt, F: vh.F8, N: 4}, vh.U(1<<32 + 4), vh.BoolItem(true)} {
+		wss = append(wss, vh.M(vh.U(0), vh.A(), key, vh.A(d.Clone()), vh.U(4), vh.A(vh.U(9))))
+	}
+	for _, w := range wss {
+		blocks = append(blocks, shelley(body.Clone(), w, vh.M()))
+	}
+	outs := vh.A(out.Clone(), vh.M(vh.U(0), vh.B([]byte{1}), vh.U(1), vh.U(2)))
+	for _, b := range []*vh.Item{vh.M(vh.U(1), outs.Clone()), vh.M(simple(1), outs.Clone()), vh.M(vh.Null(), vh.U(0), vh.U(1), outs.Clone()), vh.M(vh.U(1), vh.Null()),
+		vh.M(vh.U(1), vh.U(7)), vh.M(vh.U(1), vh.TagOf(258, outs.Clone())), vh.M(vh.NI(0), vh.U(0), vh.U(1), outs.Clone()), vh.M(vh.U(0), vh.A(), vh.TagOf(6, vh.U(1)), outs.Clone()),
+		vh.M(vh.U(1), vh.A(vh.U(0x80), vh.B([]byte{0xa0}), out.Clone())), vh.M(vh.U(1), vh.A()), vh.M(vh.U(2), vh.U(1), vh.U(1), outs.Clone(), vh.U(1), vh.A()), vh.A(vh.U(1), outs.Clone()), vh.U(1)} {
+		blocks = append(blocks, shelley(b, ws.Clone(), vh.M()))
+	}
+	for _, aux := range []*vh.Item{vh.M(vh.U(0), d.Clone()), vh.M(vh.U(1 << 32), d.Clone()), vh.M(vh.Null(), d.Clone()), vh.M(vh.NI(0), d.Clone(), vh.U(0), d.Clone()),
+		vh.M(vh.U(0), d.Clone(), vh.T("x"), d.Clone()), vh.M(vh.U(0), vh.U(1), vh.U(0), vh.B([]byte{1, 2})), vh.Null(), vh.A(vh.U(0), d.Clone()), vh.TagOf(259, vh.M(vh.U(0), d.Clone())), vh.U(0)} {
+		blocks = append(blocks, shelley(body.Clone(), ws.Clone(), aux))
+	}
+	// every one also with an indefinite-length / wide outer header
+	n := len(blocks)
+	for i := 0; i < n; i++ {
+		if blocks[i].K == vh.KArr {
+			c := blocks[i].Clone()
+			if i%2 == 0 {
+				c.F = vh.Findef
+			} else {
+				c.F = vh.F1
+			}
+			blocks = append(blocks, c)
+		}
+	}
+	return blocks
 }
